@@ -58,8 +58,9 @@ pub enum Step {
   Change { res: usize, val: Option<Val> },
   /// External touch: same value, new version.
   Touch { res: usize },
-  /// Top-down session requiring the roots in order.
-  TopDown { roots: Vec<Tid> },
+  /// Top-down session requiring the roots in order. `keep_going`: a build (one `require`) that aborts is caught inside
+  /// the session and the remaining roots are required in the same session.
+  TopDown { roots: Vec<Tid>, #[serde(default)] keep_going: bool },
   /// Re-run the previous top-down session with nothing changed.
   Repeat,
   /// Bottom-up session: schedule the reported resources (None = the complete set of changes computed by the harness),
@@ -67,7 +68,7 @@ pub enum Step {
   /// `pre_require`: tasks required top-down in the same session before the bottom-up build (resources that those
   /// executions write are added to the report). `shape` bit 0: a first bottom-up build is created, gets the report and
   /// is dropped without being run; bit 1: a second bottom-up build with the same report follows in the same session.
-  BottomUp { report: Option<Vec<usize>>, then_require: Vec<Tid>, #[serde(default)] pre_require: Vec<Tid>, #[serde(default)] shape: u8 },
+  BottomUp { report: Option<Vec<usize>>, then_require: Vec<Tid>, #[serde(default)] pre_require: Vec<Tid>, #[serde(default)] shape: u8, #[serde(default)] keep_going: bool },
   /// New session requiring every task known to the instance.
   ProbeAll,
 }
@@ -129,11 +130,13 @@ pub struct GenCfg {
   pub in_session: bool,
   /// Larger bounds: 8..14 tasks, 4..10 resources, 6..16 history steps, longer scripts.
   pub xl: bool,
+  /// Aborted builds are caught inside the session, which is then used for further builds.
+  pub same_session: bool,
 }
 
 impl Default for GenCfg {
   fn default() -> Self {
-    GenCfg { class: Class::W, bottom_up: 0, td_between: false, all_roots_td: false, crash: false, check_errors: false, rw_errors: false, exact_only_pct: 40, sim_fams_only: true, replays: 0, big: false, wrappers: false, files: false, proc_replay: false, in_session: false, xl: false }
+    GenCfg { class: Class::W, bottom_up: 0, td_between: false, all_roots_td: false, crash: false, check_errors: false, rw_errors: false, exact_only_pct: 40, sim_fams_only: true, replays: 0, big: false, wrappers: false, files: false, proc_replay: false, in_session: false, xl: false, same_session: false }
   }
 }
 
@@ -364,7 +367,7 @@ pub fn gen_history(rng: &mut Rng, prog: &Program, cfg: &GenCfg) -> (Vec<(usize, 
     v
   };
   let all0 = cfg.all_roots_td || rng.chance(30);
-  steps.push(Step::TopDown { roots: roots(rng, all0) });
+  steps.push(Step::TopDown { roots: roots(rng, all0), keep_going: false });
   let mut had_td = true;
   while steps.len() < nsteps {
     match rng.below(10) {
@@ -385,10 +388,10 @@ pub fn gen_history(rng: &mut Rng, prog: &Program, cfg: &GenCfg) -> (Vec<(usize, 
           let then_require = if rng.chance(40) { roots(rng, false) } else { vec![] };
           let pre_require = if cfg.in_session && rng.chance(45) { roots(rng, false) } else { vec![] };
           let shape = if cfg.in_session { *rng.pick(&[0u8, 0, 0, 0, 1, 2, 2, 3]) } else { 0 };
-          steps.push(Step::BottomUp { report: None, then_require, pre_require, shape });
+          steps.push(Step::BottomUp { report: None, then_require, pre_require, shape, keep_going: false });
           if rng.chance(70) { steps.push(Step::ProbeAll); }
         } else if cfg.bottom_up == 0 || cfg.td_between || cfg.all_roots_td {
-          steps.push(Step::TopDown { roots: roots(rng, cfg.all_roots_td) });
+          steps.push(Step::TopDown { roots: roots(rng, cfg.all_roots_td), keep_going: false });
           had_td = true;
         }
       }
@@ -419,6 +422,29 @@ pub fn gen_history(rng: &mut Rng, prog: &Program, cfg: &GenCfg) -> (Vec<(usize, 
     }
     if !f.is_none() { faults.insert(i, f); }
   }
+  // Sessions that go on after an abort: the caller catches the abort of one build and uses the same session further.
+  if cfg.same_session {
+    for (i, st) in steps.iter_mut().enumerate() {
+      let faulted = faults.get(&i).map(|f| f.crash_at.is_some()).unwrap_or(false);
+      let pct = if faulted || cfg.class == Class::X { 80 } else { 30 };
+      match st {
+        Step::TopDown { roots, keep_going } => {
+          if rng.chance(pct) {
+            *keep_going = true;
+            // More builds in the session: require some tasks again after the others.
+            if rng.chance(60) { let extra: Vec<Tid> = (0..ntasks).filter(|_| rng.chance(40)).collect(); roots.extend(extra); }
+          }
+        }
+        Step::BottomUp { then_require, keep_going, .. } => {
+          if rng.chance(pct) {
+            *keep_going = true;
+            if then_require.is_empty() || rng.chance(40) { let extra: Vec<Tid> = (0..ntasks).filter(|_| rng.chance(50)).collect(); then_require.extend(extra); }
+          }
+        }
+        _ => {}
+      }
+    }
+  }
   // Faults with workload: in crash + bottom-up mixes, half of the crashed builds are directly followed by an external
   // change and a bottom-up build, so that the records an abort leaves behind meet scheduling and nested requires.
   if cfg.crash && cfg.bottom_up > 0 {
@@ -427,7 +453,7 @@ pub fn gen_history(rng: &mut Rng, prog: &Program, cfg: &GenCfg) -> (Vec<(usize, 
       if i + 2 < steps.len() && rng.chance(50) && !faults.contains_key(&(i + 1)) && !faults.contains_key(&(i + 2)) {
         let res = if has_mode && rng.chance(50) { nres - 1 } else { rng.below(nres as u64) as usize };
         steps[i + 1] = Step::Change { res, val: Some(rng.below(NVALS as u64) as Val) };
-        steps[i + 2] = Step::BottomUp { report: None, then_require: vec![], pre_require: vec![], shape: 0 };
+        steps[i + 2] = Step::BottomUp { report: None, then_require: vec![], pre_require: vec![], shape: 0, keep_going: false };
       }
     }
   }
